@@ -627,6 +627,52 @@ func (w *world) leader() *node {
 	return nil
 }
 
+// agreedLeader: the slot every running member names as leader, the named peer
+// being up and naming itself (-1: none). A call that needs the leader may
+// legitimately fail for want of one while elections are going on - which they
+// can be well after the last fault: a peer that was cut off comes back with a
+// higher term and unseats the leader when the leader next reaches it.
+func (w *world) agreedLeader() int {
+	ref := -2
+	for i := 0; i < w.slots; i++ {
+		if w.member[i] == no {
+			continue
+		}
+		n := w.up(i)
+		if n == nil {
+			return -1
+		}
+		l, err := n.cons.Leader(context.Background())
+		if err != nil {
+			return -1
+		}
+		li := w.net.Index(l)
+		if li < 0 || w.up(li) == nil {
+			return -1
+		}
+		if ref == -2 {
+			ref = li
+		} else if ref != li {
+			return -1
+		}
+	}
+	if ref < 0 {
+		return -1
+	}
+	return ref
+}
+
+// modelPeers is the list of certain members.
+func (w *world) modelPeers() []int {
+	var out []int
+	for i := 0; i < w.slots; i++ {
+		if w.member[i] == yes {
+			out = append(out, i)
+		}
+	}
+	return out
+}
+
 func sleep(d time.Duration) {
 	time.Sleep(d)
 	synctest.Wait()
@@ -978,6 +1024,7 @@ func (w *world) joinOp(s Step) {
 	if was == yes {
 		beforePeers, _ = w.peersOf(at)
 	}
+	leaderBefore := w.agreedLeader()
 	var err error
 	var ret bool
 	if s.Op == "join" {
@@ -995,7 +1042,11 @@ func (w *world) joinOp(s Step) {
 			run.Probe("add_of_present_peer")
 			// a harmless no-op
 			after, perr := w.peersOf(at)
-			if perr == nil && beforePeers != nil && fmt.Sprint(after) != fmt.Sprint(beforePeers) && quietBefore && w.count(maybe) == 0 {
+			if fmt.Sprint(beforePeers) != fmt.Sprint(w.modelPeers()) {
+				// the peer asked was behind (restarted, not yet caught up): what it
+				// reports afterwards may differ for that reason alone
+				run.Probe("noop_not_judged_peer_was_behind")
+			} else if perr == nil && beforePeers != nil && fmt.Sprint(after) != fmt.Sprint(beforePeers) && quietBefore && w.count(maybe) == 0 {
 				run.Violate("C17/add_present_not_noop", "", "adding p%d, which was a member already, changed the peerset reported by p%d from %v to %v", s.Slot, s.At, beforePeers, after)
 			}
 		}
@@ -1012,7 +1063,9 @@ func (w *world) joinOp(s Step) {
 		}
 	default:
 		if was == yes && ret && quietBefore && w.count(maybe) == 0 && at.slot != s.Slot {
-			if w.up(s.Slot) != nil && w.up(s.At) != nil {
+			if la := w.agreedLeader(); leaderBefore < 0 || la != leaderBefore {
+				run.Probe("noop_failure_not_judged_no_stable_leader")
+			} else if w.up(s.Slot) != nil && w.up(s.At) != nil {
 				run.Violate("C17/add_present_failed", "", "adding p%d, which is a member already, at p%d failed: %v", s.Slot, s.At, err)
 			}
 		}
@@ -1132,6 +1185,7 @@ func (w *world) removeOp(s Step) {
 		isLeader = true
 	}
 	checkRehoming := false
+	leaderBefore := w.agreedLeader()
 	err, ret := call(90*time.Second, func() error { return at.cl.PeerRemove(context.Background(), w.id(s.Slot)) })
 	run.Ev(at.who, "peer_rm", "slot=%d err=%v returned=%v members=%s", s.Slot, err, ret, w.memberList())
 	switch {
@@ -1140,7 +1194,9 @@ func (w *world) removeOp(s Step) {
 		if was == no {
 			run.Probe("removal_of_absent_peer")
 			after, perr := w.peersOf(at)
-			if perr == nil && beforePeers != nil && fmt.Sprint(after) != fmt.Sprint(beforePeers) && quietBefore {
+			if fmt.Sprint(beforePeers) != fmt.Sprint(w.modelPeers()) {
+				run.Probe("noop_not_judged_peer_was_behind")
+			} else if perr == nil && beforePeers != nil && fmt.Sprint(after) != fmt.Sprint(beforePeers) && quietBefore {
 				run.Violate("C17/remove_absent_not_noop", "", "removing p%d, which was not a member, changed the peerset reported by p%d from %v to %v", s.Slot, s.At, beforePeers, after)
 			}
 			break
@@ -1172,6 +1228,8 @@ func (w *world) removeOp(s Step) {
 	case ret:
 		if was == yes && membersBefore == 1 && w.count(maybe) == 0 {
 			run.Probe("last_peer_removal_refused")
+		} else if la := w.agreedLeader(); was == no && quietBefore && (leaderBefore < 0 || la != leaderBefore) {
+			run.Probe("noop_failure_not_judged_no_stable_leader")
 		} else if was == no && quietBefore {
 			run.Violate("C17/remove_absent_failed", "", "removing p%d, which is not a member, at p%d failed: %v", s.Slot, s.At, err)
 		} else if was != no {
@@ -1583,7 +1641,12 @@ func (w *world) finale() {
 	if w.zombies {
 		run.Probe("unaware_ex_member_running_at_the_end")
 	}
-	w.agreement("at the end", 60*time.Second)
+	// the bounds below cover the slowest legitimate recovery: a leader that kept
+	// failing to reach a peer backs off (hashicorp/raft: up to 10ms*2^12 = 41 s
+	// between attempts), the peer meanwhile raises its term and is refused votes
+	// ("we have a leader"), and when the leader finally reaches it the higher term
+	// unseats the leader and an election follows
+	w.agreement("at the end", 120*time.Second)
 	if run.Violated() {
 		return
 	}
@@ -1599,36 +1662,70 @@ func (w *world) finale() {
 		return
 	}
 	if !w.zombies && !w.amnesia {
-		err, ret := call(60*time.Second, func() error {
-			_, e := any.cl.Pin(context.Background(), simkit.TestCid(99), api.PinOptions{Name: "final", ReplicationFactorMin: -1, ReplicationFactorMax: -1})
-			return e
-		})
+		deadline := time.Now().Add(120 * time.Second)
+		var err error
+		ret := false
+		for {
+			err, ret = call(60*time.Second, func() error {
+				_, e := any.cl.Pin(context.Background(), simkit.TestCid(99), api.PinOptions{Name: "final", ReplicationFactorMin: -1, ReplicationFactorMax: -1})
+				return e
+			})
+			if (ret && err == nil) || time.Now().After(deadline) {
+				break
+			}
+			run.Probe("final_write_retried")
+			sleep(2 * time.Second)
+		}
 		if !ret || err != nil {
-			run.Violate("C17/no_progress_after_faults", "", "60 s after the last fault, with every member up and connected, a pin at %s fails: %v (returned=%v)", any.who, err, ret)
+			run.Violate("C17/no_progress_after_faults", "", "120 s after the last fault, with every member up and connected, pins at %s keep failing: %v (returned=%v)", any.who, err, ret)
 			return
 		}
 		run.Probe("final_write_ok")
 	}
-	sleep(3 * time.Second)
-	w.judgeReady()
-	for i := 0; i < w.slots; i++ {
-		n := w.up(i)
-		if n == nil || w.member[i] != yes {
-			continue
+	// every member ends with what was acknowledged: a member that was down catches
+	// up once the leader reaches it again (see the bound above)
+	deadline := time.Now().Add(120 * time.Second)
+	for {
+		sleep(3 * time.Second)
+		w.judgeReady()
+		type miss struct {
+			who string
+			c   int
+			g   string
+			set map[string]bool
 		}
-		got := w.pinsetOf(n)
-		if got == nil {
-			continue
-		}
-		run.Probe("final_pinsets_checked")
-		for c, set := range w.allowedAll() {
-			g := got[simkit.TestCid(c).String()]
-			if !set[g] {
-				if w.zombies {
-					continue
+		var missing []miss
+		for i := 0; i < w.slots; i++ {
+			n := w.up(i)
+			if n == nil || w.member[i] != yes {
+				continue
+			}
+			got := w.pinsetOf(n)
+			if got == nil {
+				continue
+			}
+			run.Probe("final_pinsets_checked")
+			for c, set := range w.allowedAll() {
+				g := got[simkit.TestCid(c).String()]
+				if !set[g] && !w.zombies {
+					missing = append(missing, miss{n.who, c, g, set})
 				}
-				run.Violate("C17/pinset_lost", "", "at the end %s lists cid%d as %q; the acknowledged history allows %s", n.who, c, g, fmtSet(set))
 			}
 		}
+		if len(missing) == 0 {
+			return
+		}
+		if time.Now().After(deadline) {
+			sort.Slice(missing, func(i, j int) bool {
+				if missing[i].who != missing[j].who {
+					return missing[i].who < missing[j].who
+				}
+				return missing[i].c < missing[j].c
+			})
+			m := missing[0]
+			run.Violate("C17/pinset_lost", "", "at the end (120 s after the last write) %s lists cid%d as %q; the acknowledged history allows %s", m.who, m.c, m.g, fmtSet(m.set))
+			return
+		}
+		run.Probe("final_pinsets_waited_for_a_lagging_member")
 	}
 }
